@@ -81,8 +81,13 @@ partial def specHasResult : PSpec → Bool
   | .list s => specHasResult s
   | _ => false
 
+def tokBody (c : PCmd) (vals : List String) : Except PErr String :=
+  let body := c.resultName ++ "(" ++ ",".intercalate vals ++ ")"
+  .ok (if c.decl.output == some PClass.data then "arr:" ++ body
+       else if c.decl.name == "W" then "true:" ++ body else body)
+
 /-- the driver's instance of `Sem`: reads = result-typed inputs in declared order; value = a token recording what was read -/
-def tokSem : Sem String :=
+def tokSem (flag : Bool := true) : Sem String :=
   { pulls := fun c => c.decl.inputs.flatMap fun i =>
       if specHasResult i.spec then
         match (dedupArgs c.args).find? (·.name == i.name) with
@@ -93,18 +98,33 @@ def tokSem : Sem String :=
       match (dedupArgs c.args).find? (·.name == "Fail") with
       | some ⟨_, .str "mp", _⟩ => .error (.mp "ProgramError" c.line)
       | some ⟨_, .str "value", _⟩ => .error (.raw "ValueError")
-      | _ =>
-        let body := c.resultName ++ "(" ++ ",".intercalate vals ++ ")"
-        .ok (if c.decl.output == some PClass.data then "arr:" ++ body
-             else if c.decl.name == "W" then "true:" ++ body else body)
+      | some ⟨_, .str "flag", _⟩ => if flag then .error (.mp "ProgramError" c.line) else tokBody c vals
+      | some ⟨_, .str "flagvalue", _⟩ => if flag then .error (.raw "ValueError") else tokBody c vals
+      | _ => tokBody c vals
     kind := fun v => if v.startsWith "arr:" then .array else if v.startsWith "true:" then .bool else .other }
 
-inductive Op | run | result (n : String)
+inductive Op | run | result (n : String) | flag (b : Bool)
+
+/-- a history of `run()` / `.result` accesses; `flag` switches the environment condition under which `Fail = flag` bodies fail -/
+def runOps (p : Program) (ops : List Op) : St String × List String :=
+  let (st, _, outs) := ops.foldl (fun (acc : St String × Bool × List String) op =>
+    let (st, fl, outs) := acc
+    match op with
+    | .run =>
+        let (st', e) := run (tokSem fl) p st
+        (st', fl, outs ++ [match e with | some e => showPErr e | none => "ok"])
+    | .result n =>
+        let (st', e) := runCmd (tokSem fl) p (p.cmds.length + 1) st n
+        (st', fl, outs ++ [match e with | some e => showPErr e | none => "ok"])
+    | .flag b => (st, b, outs ++ ["ok"])) (({ memo := [], log := [] } : St String), true, [])
+  (st, outs)
 
 def pOp : P Op := fun ts => do
   let (t, r) ← pTok ts
   if t == "run" then pure (.run, r)
   else if t == "result" then do let (n, r) ← pHex r; pure (.result n, r)
+  else if t == "flag0" then pure (.flag false, r)
+  else if t == "flag1" then pure (.flag true, r)
   else none
 
 /-- `prog <env> <ndecls> decl* <nnodes> node* <nops> op*` -/
@@ -122,15 +142,7 @@ def handleProg (toks : List String) : String :=
     match fromNodes lib p0 nodes with
     | .error e => pure ("load " ++ showPErr e)
     | .ok p =>
-      let (st, outs) := ops.foldl (fun (acc : St String × List String) op =>
-        let (st, outs) := acc
-        match op with
-        | .run =>
-            let (st', e) := run tokSem p st
-            (st', outs ++ [match e with | some e => showPErr e | none => "ok"])
-        | .result n =>
-            let (st', e) := runCmd tokSem p (p.cmds.length + 1) st n
-            (st', outs ++ [match e with | some e => showPErr e | none => "ok"])) (({ memo := [], log := [] } : St String), [])
+      let (st, outs) := runOps p ops
       pure ("load ok ; " ++ " ".intercalate outs ++ " ; " ++ " ".intercalate (st.log.map showEv) ++ " ; " ++
             " ".intercalate (st.memo.map fun (k, v) => hex k ++ "=" ++ hex v))
   res.getD "bad-prog"
@@ -197,15 +209,7 @@ def handleLoad (toks : List String) : String :=
     match loadSource table lib p0 src with
     | .error e => pure ("load " ++ showPErr e)
     | .ok p =>
-      let (st, outs) := ops.foldl (fun (acc : St String × List String) op =>
-        let (st, outs) := acc
-        match op with
-        | .run =>
-            let (st', e) := run tokSem p st
-            (st', outs ++ [match e with | some e => showPErr e | none => "ok"])
-        | .result n =>
-            let (st', e) := runCmd tokSem p (p.cmds.length + 1) st n
-            (st', outs ++ [match e with | some e => showPErr e | none => "ok"])) (({ memo := [], log := [] } : St String), [])
+      let (st, outs) := runOps p ops
       -- the loaded program: result names, command names, arguments with raw values and lines
       let prog := " ".intercalate (p.cmds.map fun c =>
         "cmd(" ++ hex c.resultName ++ "," ++ hex c.decl.name ++ "," ++ showOptNat c.line ++ ",[" ++
